@@ -87,4 +87,10 @@ CHECKS = [
         "text": "Theorems: jobCount equals the number of set, not yet fired/cleared jobs in every reachable state (any history of set/clear from JS and Go, expirations, deliveries live or dead, Terminate's cancel loop, restarts); it is 0 exactly when no live job is left (the loop's exit condition); clear decrements only for a live job, otherwise it is the no-op; a refused setImmediate is not counted; after Terminate the registry is empty and the count 0. Every recorded step of the real loop compares jobCount and len(jobs) with the model, Stop()'s return value with the count, and Run()'s exit/continue decision with it.",
         "note": "Trusted: Lean kernel; the controlled scheduler and the event-to-label mapping; Go's timers (never early), channels and select (modelled).",
     },
+    {
+        "property_id": "C18",
+        "technique": "Lean 4 proof: the exact semantics of the timer-free fragment satisfies the program-independent partial-order oracle for every program (simulation invariant between model state and oracle state) + differential correspondence of real logs against oracle and exact model",
+        "text": "Theorem model_meets_partial_order: for every program (any nesting of promise reactions, immediates, clears, throws) whose run was not cut short by fuel, the model's log is accepted by the oracle that states the property (current block first, reactions before any immediate/timer callback, immediates in request order, cleared never runs, nothing twice, everything scheduled and not cleared runs although earlier callbacks threw); immediates FIFO in the loop itself is C04's invariant. On every run the real loop executes generated programs; its log must satisfy the oracle and, without timers, equal the model's log literally.",
+        "note": "Trusted: Lean kernel, harness; goja's promise-job draining is a modelled dependency (the model encodes the rule 'drain FIFO when the outermost call returns'); timers only through the oracle.",
+    },
 ]
